@@ -22,19 +22,37 @@ pub uninterp spec fn prel(full: PathKey, base: PathKey) -> PathKey;
 pub trait PathLike { spec fn pkey(&self) -> PathKey; }
 impl PathLike for &Path { open spec fn pkey(&self) -> PathKey { self.key() } }
 impl PathLike for Path { open spec fn pkey(&self) -> PathKey { self.key() } }
-impl PathLike for Component { open spec fn pkey(&self) -> PathKey { self.key() } }
+impl<'a> PathLike for Component<'a> { open spec fn pkey(&self) -> PathKey { self.key() } }
+impl PathLike for &OsStr { open spec fn pkey(&self) -> PathKey { self.key() } }
 
+/// a component is *normal* when it names an entry of its own: not `.`, `..`, the root or a prefix
+pub uninterp spec fn pnormal(c: PathKey) -> bool;
+pub uninterp spec fn pcomp_cur() -> PathKey;
+pub uninterp spec fn pcomp_parent() -> PathKey;
+pub uninterp spec fn pcomp_root() -> PathKey;
+pub uninterp spec fn pcomp_prefix() -> PathKey;
+/// std::path::Component (the Prefix payload is dropped: Unix paths have none)
+pub enum Component<'a> { Prefix, RootDir, CurDir, ParentDir, Normal(&'a OsStr) }
+impl<'a> Component<'a> {
+    pub open spec fn key(&self) -> PathKey {
+        match *self {
+            Component::Normal(n) => n.key(),
+            Component::CurDir => pcomp_cur(),
+            Component::ParentDir => pcomp_parent(),
+            Component::RootDir => pcomp_root(),
+            Component::Prefix => pcomp_prefix(),
+        }
+    }
+}
 #[verifier::external_body]
-pub struct Component { x: u8 }
-impl Component { pub uninterp spec fn key(&self) -> PathKey; }
-#[verifier::external_body]
-pub struct Components { x: u8 }
-impl Components {
+pub struct Components<'a> { x: core::marker::PhantomData<&'a u8> }
+impl<'a> Components<'a> {
     pub uninterp spec fn of(&self) -> PathKey;
     /// last component of the path, None for an empty path
     #[verifier::external_body]
-    pub fn next_back(&mut self) -> (r: Option<Component>)
-        ensures (r is Some) == (plast(old(self).of()) is Some), r is Some ==> r->Some_0.key() == plast(old(self).of())->Some_0
+    pub fn next_back(&mut self) -> (r: Option<Component<'a>>)
+        ensures (r is Some) == (plast(old(self).of()) is Some), r is Some ==> r->Some_0.key() == plast(old(self).of())->Some_0,
+            r is Some ==> (r->Some_0 is Normal) == pnormal(plast(old(self).of())->Some_0)
     { unimplemented!() }
 }
 
@@ -77,7 +95,7 @@ impl Path {
     #[verifier::external_body]
     pub fn from(s: &String) -> (r: Path) ensures r.key() == key_of_string(s) { unimplemented!() }
     #[verifier::external_body]
-    pub fn components(&self) -> (r: Components) ensures r.of() == self.key() { unimplemented!() }
+    pub fn components(&self) -> (r: Components<'_>) ensures r.of() == self.key() { unimplemented!() }
     #[verifier::external_body]
     pub fn to_path_buf(&self) -> (r: Path) ensures r.key() == self.key() { unimplemented!() }
     #[verifier::external_body]
